@@ -159,6 +159,9 @@ pub fn plan_for(property: &str, seed: u64) -> Plan {
         return forge_plan(seed, r, c);
     }
     let fam = seed % 10;
+    if fam == 0 && (seed / 10) % 2 == 1 {
+        return sparse_plan(property, seed, r, c);
+    }
     if fam == 0 {
         let cs = clients(&mut r, 4 * MIB, 6 * MIB, 200_000, false, 20_000);
         return Plan { seed, property: property.into(), family: "clean".into(), cfg: c, clients: cs, faults: vec![], vanish: None, forges: vec![], forge_as_drop: false };
@@ -186,6 +189,40 @@ pub fn plan_for(property: &str, seed: u64) -> Plan {
         Vanish::Forget { at }
     };
     Plan { seed, property: property.into(), family: "vanish".into(), cfg: c, clients: cs, faults, vanish: Some(vanish), forges: vec![], forge_as_drop: false }
+}
+
+/// "sparse": small transfers, nobody drops a half early, and only a handful of single datagrams
+/// (plus at most one short burst) are lost, all within the first moments of the run - the
+/// situation every transport is built for.  Aimed at the trailing acknowledgements and final
+/// packets of a direction (low ordinals of a short exchange): a lost last ACK must be repaired by
+/// the receiver's TimeWait linger answering the sender's retransmission.  Here a stream that ends
+/// in an error is a verdict (`c20.error_under_sparse_loss`), not an observation.
+fn sparse_plan(property: &str, seed: u64, mut r: Rng, c: Cfg) -> Plan {
+    let mut cs = clients(&mut r, 256 * 1024, 512 * 1024, 20_000, false, 20_000);
+    // most exchanges short enough for one or two acknowledgements per direction
+    for cl in cs.iter_mut() {
+        for s in cl.streams.iter_mut() {
+            if r.chance(1, 2) {
+                s.req.total = r.size(0, 3000);
+            }
+            if r.chance(1, 2) {
+                s.resp.total = r.size(0, 3000);
+            }
+        }
+    }
+    let mut faults = vec![];
+    for _ in 0..r.range(1, 5) {
+        faults.push(Fault { dir: r.pick(&[DIR_C2S, DIR_S2C]), sel: Sel::Ord(if r.chance(2, 3) { r.below(6) } else { r.below(40) }), act: Act::Drop });
+    }
+    if r.chance(1, 4) {
+        let t0 = r.size(0, c.base_delay_us * 10 + 100);
+        faults.push(Fault {
+            dir: r.pick(&[DIR_C2S, DIR_S2C]),
+            sel: Sel::Window { t0_us: t0, t1_us: t0 + r.size(1, (c.base_delay_us * 2 + 100).min(20_000)), pm: 1000, key: 0 },
+            act: Act::Drop,
+        });
+    }
+    Plan { seed, property: property.into(), family: "sparse".into(), cfg: c, clients: cs, faults, vanish: None, forges: vec![], forge_as_drop: false }
 }
 
 fn other(r: &mut Rng) -> Other {
